@@ -1,4 +1,5 @@
 """C07 - angles and dihedrals equal their geometric definitions (periodic or not); named torsions use the documented atoms."""
+import itertools
 import math
 import warnings
 
@@ -131,6 +132,17 @@ def _vec(d, H):
     return v, m, oracle.widths(H).min()
 
 
+def _tie(v, H, margin):
+    """True where another periodic image of the vector is (nearly) as short as the minimum image: the minimum-image vector is
+    then not unique (or decided by rounding) and nothing is compared"""
+    if H is None or len(v) == 0:
+        return np.zeros(len(v), dtype=bool)
+    R = oracle.reduce_basis(H)
+    G = np.array([np.array(n, dtype=np.float64) @ R for n in itertools.product((-1, 0, 1), repeat=3) if any(n)])
+    second = np.linalg.norm(v[:, None, :] - G[None, :, :], axis=2).min(axis=1)
+    return second - np.linalg.norm(v, axis=1) < margin
+
+
 def run_case(case):
     if case["mode"] == "peptide":
         return _run_peptide(case)
@@ -184,7 +196,9 @@ def run_case(case):
             # ---- angles
             u, lu, w = _vec(x[f, T[:, 0]] - x[f, T[:, 1]], H)
             v, lv, _w = _vec(x[f, T[:, 2]] - x[f, T[:, 1]], H)
-            ok = (lu < 0.45 * w) & (lv < 0.45 * w) & (lu > 0) & (lv > 0)
+            # (every leg length counts: the minimum image is unique unless two images are equally short; those legs are left out)
+            tmar = 64 * oracle.EPS32 * (xmax + cmax + 1) + 1e-5
+            ok = (lu > 0) & (lv > 0) & ~_tie(u, H, tmar) & ~_tie(v, H, tmar)
             if use_cell and ok.any():
                 plain = np.linalg.norm(x[f, T[:, 0]] - x[f, T[:, 1]], axis=1)
                 if (np.abs(plain - lu)[ok] > 1e-3).any():
@@ -208,7 +222,7 @@ def run_case(case):
             b1, l1, w = _vec(x[f, Q[:, 1]] - x[f, Q[:, 0]], H)
             b2, l2, _w = _vec(x[f, Q[:, 2]] - x[f, Q[:, 1]], H)
             b3, l3, _w = _vec(x[f, Q[:, 3]] - x[f, Q[:, 2]], H)
-            okq = (l1 < 0.45 * w) & (l2 < 0.45 * w) & (l3 < 0.45 * w) & (l1 > 0) & (l2 > 0) & (l3 > 0)
+            okq = (l1 > 0) & (l2 > 0) & (l3 > 0) & ~_tie(b1, H, tmar) & ~_tie(b2, H, tmar) & ~_tie(b3, H, tmar)
             phi = oracle.dihedral(b1, b2, b3)
             s1 = np.sin(oracle.angle(-b1, b2))
             s2 = np.sin(oracle.angle(-b2, b3))
@@ -227,7 +241,7 @@ def run_case(case):
             if (smin[okq] < 0.05).any():
                 small_sin = True
             diff = np.abs((gotd - phi + math.pi) % (2 * math.pi) - math.pi)
-            badq = well & (diff > tolq)
+            badq = well & ~(diff <= tolq)
             if badq.any():
                 i = int(np.argmax(badq))
                 viol.append((tag + "/dihedral", "frame %d quartet %s: got %.7f, IUPAC definition %.7f (tol %.2g)" % (f, Q[i].tolist(), gotd[i], phi[i], tolq[i])))
